@@ -403,40 +403,73 @@ func runC01(c *Ctx, w *World, r *Report) {
 			}
 			wordVN := fa.VN(stripConv(wv))
 			// count result: contains popcount(w & Mask[i&63])
-			L := fa.Lin(ret.Results[0])
-			foundMasked := false
-			for atom, coef := range L.T {
-				call, ok := fa.AtomValue(atom).(*ssa.Call)
-				if !ok || !strings.HasPrefix(calleeName(call.Common()), "math/bits.OnesCount") {
-					continue
-				}
-				a0, a1, ok := asBin(call.Common().Args[0], token.AND)
-				if !ok {
-					continue
-				}
-				for _, side := range [2][2]ssa.Value{{a0, a1}, {a1, a0}} {
-					if fa.VN(stripConv(side[0])) != wordVN {
+			// the count may be merged from alternatives (conditional subtraction of the right word): every alternative adds the masked popcount
+			foundMasked := true
+			for _, leaf := range resolvePhi(stripConv(ret.Results[0])) {
+				L := fa.Lin(leaf)
+				foundLeaf := false
+				for atom, coef := range L.T {
+					call, ok := fa.AtomValue(atom).(*ssa.Call)
+					if !ok || !strings.HasPrefix(calleeName(call.Common()), "math/bits.OnesCount") {
 						continue
 					}
-					ms, ok := fa.MaskOf(side[1])
+					a0, a1, ok := asBin(call.Common().Args[0], token.AND)
 					if !ok {
 						continue
 					}
-					if ms.Kind != "low" {
-						bad = fmt.Sprintf("the counted word is masked with a %s-bits mask (%s), not with the low j bits (bitmap.Mask[j] or (1<<j)-1)", ms.Kind, ms.Via)
+					for _, side := range [2][2]ssa.Value{{a0, a1}, {a1, a0}} {
+						if fa.VN(stripConv(side[0])) != wordVN {
+							continue
+						}
+						ms, ok := fa.MaskOf(side[1])
+						if !ok {
+							continue
+						}
+						if ms.Kind != "low" {
+							bad = fmt.Sprintf("the counted word is masked with a %s-bits mask (%s), not with the low j bits (bitmap.Mask[j] or (1<<j)-1)", ms.Kind, ms.Via)
+							continue
+						}
+						jv := fa.AtomValueOfLin(ms.N)
+						tx, tj, ok := asLowMask(jv)
+						if jv == nil || !ok || tj != 6 || stripConv(tx) != iParam {
+							bad = "the mask width is not i&63"
+							continue
+						}
+						if coef != 1 {
+							bad = "the masked popcount is not added exactly once"
+							continue
+						}
+						foundLeaf = true
+					}
+				}
+				// -popcount(w & high j) on the right word equals -popcount(w) + popcount(w & low j)
+				for atom, coef := range L.T {
+					call, ok := fa.AtomValue(atom).(*ssa.Call)
+					if !ok || coef != -1 || !strings.HasPrefix(calleeName(call.Common()), "math/bits.OnesCount") {
 						continue
 					}
-					jv := fa.AtomValueOfLin(ms.N)
-					tx, tj, ok := asLowMask(jv)
-					if jv == nil || !ok || tj != 6 || stripConv(tx) != iParam {
-						bad = "the mask width is not i&63"
+					a0, a1, ok := asBin(call.Common().Args[0], token.AND)
+					if !ok {
 						continue
 					}
-					if coef != 1 {
-						bad = "the masked popcount is not added exactly once"
-						continue
+					for _, side := range [2][2]ssa.Value{{a0, a1}, {a1, a0}} {
+						if fa.VN(stripConv(side[0])) != wordVN {
+							continue
+						}
+						if ms, ok := fa.MaskOf(side[1]); ok && ms.Kind == "high" {
+							if jv := fa.AtomValueOfLin(ms.N); jv != nil {
+								if tx, tj, ok := asLowMask(jv); ok && tj == 6 && stripConv(tx) == iParam {
+									foundLeaf = true
+									if strings.HasPrefix(bad, "the counted word is masked with a high") {
+										bad = ""
+									}
+								}
+							}
+						}
 					}
-					foundMasked = true
+				}
+				if !foundLeaf {
+					foundMasked = false
 				}
 			}
 			if !foundMasked && bad == "" {
